@@ -230,7 +230,8 @@ def written(number):
     not the 0.07000000000000000666 a double stores: scaled in float arithmetic, 0.07 * 100 lands
     above 7 and 1.7000000000000002 * 10 on 17, on the wrong side of the multiple either way. """
     if isinstance(number, float):
-        return Fraction(decimal.Decimal(repr(number)))
+        # float.__repr__: a member of a float class of the host may print as anything
+        return Fraction(decimal.Decimal(float.__repr__(number)))
     return Fraction(number)
 
 
